@@ -36,6 +36,28 @@ def md_list(t, axis):
     return [plain(m) if m is not None else None for m in md]
 
 
+def kinds(x):
+    """The container skeleton of a metadata value: which parts are tuples,
+    lists, mappings (plain() maps tuples to lists so that cases stay JSON;
+    a tuple that comes back as a list is still a changed value)."""
+    if isinstance(x, dict):
+        return {str(k): kinds(v) for k, v in x.items()}
+    if isinstance(x, tuple):
+        return ["tuple"] + [kinds(v) for v in x]
+    if isinstance(x, list):
+        return ["list"] + [kinds(v) for v in x]
+    if isinstance(x, np.ndarray):
+        return ["ndarray"]
+    return "-"
+
+
+def md_kinds(t, axis):
+    md = t.metadata(axis=axis)
+    if md is None:
+        return None
+    return [kinds(m) if m is not None else None for m in md]
+
+
 def _gmd(t, axis):
     g = t.group_metadata(axis=axis)
     if not g:
@@ -55,6 +77,8 @@ def snapshot(t, copy=True):
         "shape": list(dense.shape),
         "obs_md": md_list(c, "observation"),
         "samp_md": md_list(c, "sample"),
+        "obs_mdk": md_kinds(c, "observation"),
+        "samp_mdk": md_kinds(c, "sample"),
         "type": c.type,
         "table_id": c.table_id,
         "obs_gmd": _gmd(c, "observation"),
